@@ -84,7 +84,8 @@ def _search(ctx, deep=False):
                          "case": cdesc, "got": np.asarray(fr).tolist(), "want": np.asarray(z).tolist(), "cond": cond})
         # zero measurement error on a model WITH nugget: the datum is honoured, the variance is the nugget
         v_expected = model.nugget if mode == "zero-err" else 0.0
-        if not (np.all(np.abs(v - v_expected) <= 1e-7 * model.sill * max(1.0, cond / 1e3)) and var_same):
+        sill = float(model.var) + float(model.nugget)          # the sill of the REPORTED variance (not read from model.sill)
+        if not (np.all(np.abs(v - v_expected) <= 1e-7 * sill * max(1.0, cond / 1e3)) and var_same):
             viol.append({"key": f"krige:zero-variance:{cfg2['variant']}:{mode}", "what": "kriging variance at conditioning points is not zero",
                          "case": cdesc, "got": np.asarray(v).tolist(), "cond": cond})
         # variance bounds at arbitrary targets
@@ -95,12 +96,19 @@ def _search(ctx, deep=False):
         ev += 1
         if np.any(vv < 0):
             viol.append({"key": "krige:negative-variance", "what": "negative kriging variance", "case": cdesc, "got": vv.tolist()})
-        if not kc.is_unbiased(cfg2) and not kc.drift_callables(cfg2) and cfg2["ext"] is None and np.any(vv > model.sill * (1 + 1e-9)):
+        if not kc.is_unbiased(cfg2) and not kc.drift_callables(cfg2) and cfg2["ext"] is None and np.any(vv > sill * (1 + 1e-9)):
             viol.append({"key": "krige:variance-above-sill", "what": "simple kriging variance exceeds the sill", "case": cdesc, "got": vv.tolist()})
     # objects with a history (model edits, re-assignments, set_condition forms): exactness for the CURRENT data
     hv, hev, hsum = C05.search_histories(ctx, rng, deep, zero=True)
     viol += hv
     ev += hev
+    # models whose variance differs from their raw intensity (TPL family with var_factor != 1, user-defined var_factor): exactness,
+    # zero variance at the data, variance within [0, reported variance + nugget], independent solve with model.covariance
+    vev, vv_, vsum = kc.search_var_factor(np.random.RandomState(ctx.seed + 6641), ctx.scale(75, 500) * (2 if deep else 1), zero=True)
+    vev2, vv2, _ = kc.search_var_factor(np.random.RandomState(ctx.seed + 6651), ctx.scale(30, 200) * (2 if deep else 1), zero=False)
+    viol = vv_[:3] + vv2[:2] + viol
+    ev += vev + vev2
+    hsum += "; " + vsum
     # coincident conditioning points with the pseudo inverse act as one point carrying the mean value — any number of
     # locations, ANY multiplicities (theorem C06.duplicates_pinv_simple).  The hypothesis of that theorem, `IsMPInv K M`,
     # is replayed on what scipy actually returns: the four Penrose equations on the captured (K, M) within 1e-9.
